@@ -17,7 +17,8 @@ LAYOUT
                "auto": {"cg": bool, "aaitp": bool, "aagro": bool},              listed in --auto
                "explicit": bool} ]                                              given with --mol
   foreign : [ SPECIES … ]  (not in the system; all three files written and listed)
-  extras  : [ {"path": rel, "kind": "txt" | "othergro" | "sysgro" | "badtop" (+ "variant")} ]
+  extras  : [ {"path": rel, "kind": "txt" | "othergro" | "sysgro" | "badtop" (+ "variant") | "multigro" (+ "of", "copies")} ]
+            multigro = a coordinate file with 2-3 molecules of species `of` in the FINAL resolution (distractor)
             badtop = a candidate .itp that is NOT a molecule topology (force-field include, empty file, only
             #include lines, a [ system ] file, no [ atoms ]): an ordinary distractor, inside the quantifier
   sys : rel path of the system file; sys_in_auto : bool
@@ -49,11 +50,15 @@ RULE = ("discover: generated systems (2-5 species incl. 1-/2-atom/multi-residue)
         "start+end topology without coordinates), species given with --mol, --exclude lists, distractors (.txt/.mdp, the "
         "system file itself, unrelated .gro, complete file triples of species not in the system, upper-case extensions, "
         "multi-dot names, sub-directories, candidate .itp files that are not molecule topologies: force-field include / empty / "
-        "blank / only #include / only comments / [ system ] file / no [ atoms ]; p=.35 per directory), semantic or opaque "
+        "blank / only #include / only comments / [ system ] file / no [ atoms ]; p=.35 per directory; coordinate files holding 2-3 "
+        "molecules of a discoverable species in the FINAL resolution, p=.45), semantic or opaque "
         "file names; every permutation of the two candidate sets "
         "when <= 4x3 else identity/reverse/sorted + random ones; subprocess runs under PYTHONHASHSEED with shuffled "
         "argument lists. cli: main() with --mol/--auto/--exclude/--scale/-o combinations, relative/absolute/sub-directory "
-        "input paths, vs the library workflow, byte comparison; shipped BMIM/BF4. Ambiguous directories, --mol of a species not in the "
+        "input paths, explicit triples whose end topology carries ANOTHER molecule name than the start topology (p=.5 per explicit "
+        "species), vs the library workflow (end molecule attached to the species of its triple's start topology; "
+        "add_end_molecules when all names coincide), byte comparison, the library workflow itself must succeed whenever something "
+        "is to be mapped; shipped BMIM/BF4 incl. a renamed all-atom topology. Ambiguous directories, --mol of a species not in the "
         "system and CORRUPT molecule topologies (ValueError) are run, compared with the model and reported, not judged. Non-trivial = discover/cli case with >= 2 candidate topologies; "
         "distinct by canonical hash.")
 
@@ -137,6 +142,11 @@ def gen_layout(rng, desc, for_cli=False, ambiguous=None, d9=None, badtop=False):
                        "kind": "txt"})
     if rng.random() < 0.4:
         extras.append({"path": "old_frame.gro", "kind": "othergro"})
+    mapped_idx = [k for k, sp in enumerate(desc["species"]) if sp["aa"] is not None]
+    if mapped_idx and rng.random() < 0.45:
+        for k in rng.sample(mapped_idx, rng.choice([1, 1, min(2, len(mapped_idx))])):
+            extras.append({"path": rng.choice(["old_mapped_box", "equilibrated_AA", "aa_copies", "000_frame"]) + f"_{k}.gro",
+                           "kind": "multigro", "of": k, "copies": rng.randint(2, 3)})
     if badtop or rng.random() < 0.35:
         for path in rng.sample(BADTOP_NAMES, rng.choice([1, 1, 2])):
             extras.append({"path": path, "kind": "badtop", "variant": rng.choice(sorted(BADTOPS))})
@@ -204,7 +214,7 @@ def materialize(desc, layout, root):
         if files["cg"]:
             mgrgen.write_itp(ap(files["cg"]), sp["name"], sp["cg"], comment="start")
         if sp["aa"] is not None and files.get("aaitp"):
-            mgrgen.write_itp(ap(files["aaitp"]), sp["name"], sp["aa"], comment="end")
+            mgrgen.write_itp(ap(files["aaitp"]), sp.get("aa_name", sp["name"]), sp["aa"], comment="end")
         if sp["aa"] is not None and files.get("aagro"):
             mgrgen.write_gro(ap(files["aagro"]), "end " + sp["name"], mgrgen.mol_atoms(sp["aa"]), [3.0, 3.0, 3.0],
                              vel=sp["aa"].get("vel", False))
@@ -215,6 +225,16 @@ def materialize(desc, layout, root):
     for e in layout["extras"]:
         if e["kind"] == "txt":
             open(ap(e["path"]), "w").write("; nothing to see here\n[ moleculetype ]\n")
+        elif e["kind"] == "multigro":
+            # SEVERAL molecules of a discoverable species in the FINAL resolution (an old mapped box): it matches the
+            # species' end topology but is not "its end coordinates" (Molecule.from_files demands exactly one molecule)
+            sp = desc["species"][e["of"]]
+            atoms = []
+            nres = len(sp["aa"]["residues"])
+            for c in range(e["copies"]):
+                xyz = [[round(p[0] + 0.9 * c, 3), round(p[1] + 0.1 * c, 3), p[2]] for p in sp["aa"]["xyz"]]
+                atoms += mgrgen.mol_atoms(sp["aa"], resid0=1 + c * nres, xyz=xyz)
+            mgrgen.write_gro(ap(e["path"]), "several molecules in the final resolution", atoms, [6.0, 6.0, 6.0])
         elif e["kind"] == "othergro":
             mgrgen.write_gro(ap(e["path"]), "something else", [(1, "ZZZ", "Q1", [0.1, 0.2, 0.3]),
                                                                (1, "ZZZ", "Q2", [0.2, 0.2, 0.3])], [2.0, 2.0, 2.0])
@@ -271,7 +291,8 @@ def expected_info(desc, layout):
         if ls["explicit"] or not ls["auto"]["cg"]:
             continue
         info = {"top_CG": ls["files"]["cg"]}
-        if ls["auto"]["aaitp"] and ls["files"]["aaitp"]:
+        same_name = sp.get("aa_name", sp["name"]) == sp["name"]      # discovery pairs topologies by molecule name
+        if ls["auto"]["aaitp"] and ls["files"]["aaitp"] and same_name:
             info["top_AA"] = ls["files"]["aaitp"]
             if ls["auto"]["aagro"] and ls["files"]["aagro"]:
                 info["coor_AA"] = ls["files"]["aagro"]
@@ -336,11 +357,18 @@ def generate(ctx):
                 ls["explicit"] = False
         if layout.get("pin_auto") is not None:
             layout["species"][layout["pin_auto"]]["explicit"] = False
+        for sp, ls in zip(desc["species"], layout["species"]):
+            if sp["aa"] is not None and ls["explicit"] and rng.random() < 0.5:
+                sp["aa_name"] = rng.choice([sp["name"] + "_AA", "AA" + sp["name"], "LIG", sp["name"].lower() + "x"])
+            elif sp["aa"] is not None and not ls["explicit"] and rng.random() < 0.08:
+                sp["aa_name"] = sp["name"] + "_other"        # listed in --auto only: cannot be paired by name
         yield {"kind": "cli", "desc": desc, "layout": layout,
                "scale": rng.choice([None, 0.5, 1.0, 0.3, 0.75, round(rng.uniform(0.1, 1.2), 3)]),
                "out": rng.choice([None, None, "result.gro", "outdir/final.gro", "ABS"]),
                "refstyle": rng.choice(["rel", "rel", "dot", "abs", "sub"]),
                "npseed": rng.randrange(2 ** 31), "perm_seed": rng.randrange(2 ** 31)}
+    yield {"kind": "shipped", "auto": False, "renamed": True, "scale": rng.choice([0.5, 0.8]),
+           "npseed": rng.randrange(2 ** 31), "out": rng.choice([None, "renamed_out.gro"]), "perm_seed": 0}
     for auto in (False, True):
         yield {"kind": "shipped", "auto": auto, "scale": rng.choice([0.5, 0.8]), "npseed": rng.randrange(2 ** 31),
                "out": None if auto else "bmim_aa.gro", "perm_seed": rng.randrange(2 ** 31)}
@@ -570,6 +598,8 @@ def _eval_discover(ctx, case):
             ctx.count("discover:start-topology-without-end-topology")
         if known:
             ctx.count("discover:with-explicit")
+        if any(e["kind"] == "multigro" for e in layout["extras"]):
+            ctx.count("discover:with-multi-molecule-final-resolution-gro")
         ctx.count("candidate-tops", len(tops))
         ctx.count("candidate-coords", len(coords))
         if tabs["odd"]:
@@ -700,9 +730,15 @@ def _run_main(argv, order_seed, npseed, cwd):
     return err, seen, order
 
 
-def _run_library(ref, mols, scale, out, npseed, cwd):
+def _run_library(ref, mols, scale, out, npseed, cwd, by_own_name=False):
+    """the library workflow for the triples `mols` (start topology, end coordinates, end topology):
+    `Manager.from_files(ref, *starts)`; each end molecule `Molecule.from_files(gro, itp)` is attached to the species
+    named by the START topology of its triple (`manager.molecule_correspondence[name].end = mol` — the documented way
+    to map a species onto a differently named molecule); when every end molecule carries its species' name this is
+    `manager.add_end_molecules(*mols)`, used instead when `by_own_name`."""
     from gaddlemaps import Alignment, Manager
     from gaddlemaps.components import Molecule
+    from gaddlemaps.parsers import read_topology
     old_steps = Alignment.STEPS_FACTOR
     Alignment.STEPS_FACTOR = STEPS
     try:
@@ -710,7 +746,12 @@ def _run_library(ref, mols, scale, out, npseed, cwd):
             np.random.seed(npseed)
             try:
                 man = Manager.from_files(ref, *[m[0] for m in mols])
-                man.add_end_molecules(*[Molecule.from_files(m[1], m[2]) for m in mols])
+                ends = [Molecule.from_files(m[1], m[2]) for m in mols]
+                if by_own_name:
+                    man.add_end_molecules(*ends)
+                else:
+                    for m, end in zip(mols, ends):
+                        man.molecule_correspondence[read_topology(m[0])[0]].end = end
                 man.align_molecules()
                 man.calculate_exchange_maps(scale)
                 man.extrapolate_system(out)
@@ -794,8 +835,16 @@ def _eval_cli(ctx, case):
             got = seen["auto_map"]["species"]
             if got[:len(triples)] == exp_mols[:len(triples)] and sorted(got) == sorted(exp_mols):
                 lib_mols = got
-        lerr = _run_library(ref, lib_mols, scale, libout, case["npseed"], root)
+        renamed = any(sp.get("aa_name", sp["name"]) != sp["name"] for sp in desc["species"])
+        if renamed and triples:
+            ctx.count("cli:explicit-triple-with-different-start/end-molecule-names")
+        own = (not renamed) and case["npseed"] % 2 == 0
+        ctx.count("cli:library-attaches-by-" + ("own-name(add_end_molecules)" if own else "start-species-name"))
+        lerr = _run_library(ref, lib_mols, scale, libout, case["npseed"], root, by_own_name=own)
         fails = []
+        if lib_mols and lerr is not None:
+            # something is to be mapped and the LIBRARY workflow itself fails on these files
+            fails.append((f"library-workflow:raises-{lerr}", {"species": lib_mols}))
         if seen["auto_map"] is None:
             # an exception out of the discovery step is the same failure class as in the `discover` cases
             fails.append((f"sort_molecules:raises-{err}" if (use_auto and not seen["sorted"])
@@ -807,7 +856,7 @@ def _eval_cli(ctx, case):
             if am["scale"] != scale:
                 fails.append(("main:scale", {"got": am["scale"], "expected": scale}))
             if err != lerr:
-                fails.append(("cli-vs-library:error", {"cli": err, "library": lerr}))
+                fails.append(("cli-vs-library:error", {"cli": err, "library": lerr, "argv": argv}))
             elif err is None:
                 if seen["path"] != exp_out:
                     fails.append(("cli:output-path", {"got": seen["path"], "expected": exp_out}))
@@ -872,6 +921,15 @@ def _eval_shipped(ctx, case):
         open(os.path.join(root, "martini_v2.2.itp"), "w").write(BADTOPS["ff"])
         ref = "system_bmimbf4_cg.gro"
         mols = [["BMIM_CG.itp", "BMIM_AA.gro", "BMIM_AA.itp"], ["BF4_CG.itp", "BF4_AA.gro", "BF4_AA.itp"]]
+        if case.get("renamed"):
+            # the all-atom topology calls the molecule differently from the coarse-grained one (as the shipped
+            # vitamin_E_CG.itp / VTE_AA.itp pair does): only the explicit triple says the files belong together
+            txt = open(os.path.join(root, "BMIM_AA.itp")).read().split("\n")
+            k = next(i for i, l in enumerate(txt) if "moleculetype" in l)
+            j = next(i for i in range(k + 1, len(txt)) if txt[i].strip() and not txt[i].lstrip().startswith(";"))
+            txt[j] = txt[j].replace("BMIM", "BMIM_ALLATOM", 1)
+            open(os.path.join(root, "BMIM_renamed_AA.itp"), "w").write("\n".join(txt))
+            mols[0][2] = "BMIM_renamed_AA.itp"
         if case["auto"]:
             files = sorted(f for f in os.listdir(root))
             argv = [ref, "--auto"] + files + ["--scale", repr(case["scale"])]
@@ -896,7 +954,7 @@ def _eval_shipped(ctx, case):
             libout = os.path.join(root, "library_out.gro")
             lerr = _run_library(ref, got if sorted(got) == sorted(mols) else mols, case["scale"], libout, case["npseed"], root)
             if lerr is not None:
-                fails.append(("shipped:library-raises-" + lerr, {}))
+                fails.append(("library-workflow:raises-" + lerr, {"shipped": True}))
             elif created != [exp_out]:
                 fails.append(("cli:files-created", {"created": created, "expected": exp_out}))
             elif open(os.path.join(root, exp_out), "rb").read() != open(libout, "rb").read():
@@ -943,6 +1001,7 @@ def _eval_outpath(ctx, case):
     seen = {}
 
     class Stub:
+        """stands for the Manager: records what auto_map hands over; any other method is accepted"""
         molecule_correspondence = {}
 
         @classmethod
@@ -950,20 +1009,27 @@ def _eval_outpath(ctx, case):
             seen["from_files"] = (ref, tops)
             return cls()
 
-        def align_molecules(self):
-            seen["align"] = True
-
-        def calculate_exchange_maps(self, scale_factor=None):
-            seen["scale"] = scale_factor
+        def calculate_exchange_maps(self, *a, **k):
+            seen["scale"] = k.get("scale_factor", a[0] if a else None)
 
         def extrapolate_system(self, path):
             seen["path"] = path
+
+        def __getattr__(self, name):
+            def method(*a, **k):
+                seen.setdefault("calls", []).append(name)
+            return method
     orig = gaddlemaps.Manager
     gaddlemaps.Manager = Stub
+    err = None
     try:
         cli.auto_map(case["ref"], [], case["scale"], outfile=case["out"])
+    except Exception as e:
+        err = type(e).__name__
     finally:
         gaddlemaps.Manager = orig
+    if err is not None:
+        ctx.oracle_fail(f"auto_map:raises-{err}", case, {"seen": {k: str(v) for k, v in seen.items()}})
     ctx.case(case, nontrivial=True)
     ctx.count("outpath")
     ctx.oracle_ok(2)
